@@ -244,6 +244,10 @@ func genCase(rt *rapid.T) *Case {
 	}
 	b.add("\tfmt.Println(\"unreachable\")")
 	b.add("}")
+	b.add("")
+	b.add("func Reset() {")
+	b.add("\tdepth = 0")
+	b.add("}")
 	chain = append(chain, Frame{Func: "app.Entry", Line: entryLine})
 	c.Chain = chain
 	c.Src = strings.Join(b.lines, "\n") + "\n"
@@ -296,7 +300,22 @@ func run(c *Case, optimize bool) (goat.Result, []rec) {
 	if r.Err == nil {
 		return r, nil
 	}
-	return r, parseErr(r.Err.Error())
+	recs := parseErr(r.Err.Error())
+	// the same VM, after the failure: the report of a second failure must not carry anything over from the first
+	if strings.Contains(c.Src, "func Reset()") {
+		if rr := vm.Call("app.Reset", 0, goat.DefaultBudget); !rr.Failed() {
+			r2 := vm.Call("app.Entry", 0, goat.DefaultBudget)
+			if r2.Panic != nil {
+				r.Panic = r2.Panic
+				return r, recs
+			}
+			if r2.Err == nil || r2.Err.Error() != r.Err.Error() {
+				r.Err = fmt.Errorf("%s\n=== the same call repeated on the same VM after the failure reports instead:\n%s", r.Err.Error(), r2.ErrString())
+				return r, []rec{{Func: "second-run-differs"}}
+			}
+		}
+	}
+	return r, recs
 }
 
 func check(c *Case) *ev.Failure {
